@@ -927,7 +927,8 @@ func runStorage(profile string, seed int64, histories, steps int, out *Emitter) 
 					break
 				}
 				post, bad := c.storageAbs(g.users)
-				out.Emit(map[string]interface{}{"mod": "storage", "hist": hi, "i": i, "h": c.H, "now": c.T.UnixNano(), "pre": pre, "op": "restart", "ok": true, "post": post, "badKeys": bad, "users": g.users})
+				out.Emit(map[string]interface{}{"mod": "storage", "hist": hi, "i": i, "h": c.H, "now": c.T.UnixNano(), "pre": pre, "op": "restart", "ok": true, "post": post, "badKeys": bad, "users": g.users,
+					"genesis": c.storageGenesisJ()})
 				out.Count(profile+".restart", true)
 				restartNow = true // its first block follows at once
 			}
@@ -1146,3 +1147,52 @@ func runStorage(profile string, seed int64, histories, steps int, out *Emitter) 
 }
 
 var _ = bytes.Equal
+
+// storageGenesisJ decodes the storage part of the last exported application state into the records the model
+// speaks about, list by list and in the exported order (the Lean model's `Genesis.Storage.exportGenesis` must
+// produce exactly these lists from the state before the restart, and its `initGenesis` the state after it).
+func (c *Chain) storageGenesisJ() interface{} {
+	var app map[string]json.RawMessage
+	if json.Unmarshal(c.LastExport, &app) != nil {
+		return nil
+	}
+	var gs sttypes.GenesisState
+	if err := c.A.AppCodec().UnmarshalJSON(app[sttypes.ModuleName], &gs); err != nil {
+		return map[string]interface{}{"error": err.Error()}
+	}
+	var bad []string
+	files, provs, pays, colls, act, reps, atts, gauges, proofs := []interface{}{}, []interface{}{}, []interface{}{}, []interface{}{}, []string{}, []interface{}{}, []interface{}{}, []interface{}{}, []interface{}{}
+	for _, f := range gs.FileList {
+		files = append(files, fileJ(f, &bad))
+	}
+	for _, p := range gs.ProvidersList {
+		provs = append(provs, providerJ(p))
+	}
+	for _, p := range gs.PaymentInfoList {
+		pays = append(pays, payinfoJ(p))
+	}
+	for _, x := range gs.CollateralList {
+		colls = append(colls, map[string]interface{}{"address": x.Address, "amount": x.Amount})
+	}
+	for _, a := range gs.ActiveProvidersList {
+		act = append(act, a.Address)
+	}
+	for _, f := range gs.ReportForms {
+		reps = append(reps, formJ(f.Prover, f.Merkle, f.Owner, f.Start, f.Attestations))
+	}
+	for _, f := range gs.AttestForms {
+		atts = append(atts, formJ(f.Prover, f.Merkle, f.Owner, f.Start, f.Attestations))
+	}
+	for _, g := range gs.PaymentGauges {
+		gauges = append(gauges, gaugeJ(g))
+	}
+	for _, p := range gs.ProofList {
+		proofs = append(proofs, proofJ(p))
+	}
+	p := gs.Params
+	return map[string]interface{}{
+		"params": map[string]interface{}{"proofWindow": p.ProofWindow, "checkWindow": p.CheckWindow, "chunkSize": p.ChunkSize, "pricePerTbPerMonth": p.PricePerTbPerMonth,
+			"collateralPrice": p.CollateralPrice, "attestFormSize": p.AttestFormSize, "attestMinToPass": p.AttestMinToPass, "referralCommission": p.ReferralCommission, "polRatio": p.PolRatio},
+		"fileList": files, "providersList": provs, "paymentInfoList": pays, "collateralList": colls, "activeProvidersList": act,
+		"reportForms": reps, "attestForms": atts, "paymentGauges": gauges, "proofList": proofs}
+}
